@@ -380,7 +380,7 @@ pub fn f8_probe() -> Result<(), String> {
 
 fn time_const() -> BoxedStrategy<f32> {
     prop_oneof![
-        3 => proptest::sample::select(vec![0.0f32, 1.0, 1e-3, 0.5, 10.0, 1e4, 1e9, 3.4e7, 100.0, 2.0]),
+        3 => proptest::sample::select(vec![0.0f32, -0.0, 1.0, 1e-3, 0.5, 10.0, 1e4, 1e9, 3.4e7, 100.0, 2.0, 1e-30]),
         2 => (0.0f32..50.0),
         1 => (0.0f32..1e6),
     ]
@@ -413,7 +413,7 @@ pub fn env_strategy() -> impl Strategy<Value = EnvCase> {
 pub fn run(ctx: &mut Ctx) {
     ctx.set_rule(
         "rectifiers: (format, 1..=4 channel values) — every value of the 8/16-bit formats, boundary sets and random values of the others, the format minimum of integer formats excluded (no representable negation); \
-         envelope: (frame type out of f32, [f64;2], [i16;2], [I24;1], [i32;1], [u8;3], [u16;2]; peak full/positive/negative or rms window 1..=32; attack and release in {0, 1, 1e-3, 0.5, 10, 1e4, 1e9, random >= 0}; \
+         envelope: (frame type out of f32, [f64;2], [i16;2], [I24;1], [i32;1], [u8;3], [u16;2]; peak full/positive/negative or rms window 1..=32; attack and release in {0, -0.0 (a zero: -0.0 >= 0), 1, 1e-3, 1e-30, 0.5, 10, 1e4, 1e9, random >= 0}; \
          history of up to 400 frames with set_attack_frames / set_release_frames at random steps; direct detector or detect_envelope adaptor); non-trivial: release path taken, zero time constant, parameter change mid-run, unsigned or multi-channel format",
     );
     ctx.assume("rectifier oracle: |amplitude| in the signed companion, max(s, equilibrium), min(s, equilibrium), exact; envelope oracle per channel: out in d + [g_lo, g_hi] (l - d) with g = exp(-1/frames) in f64 widened by 1e-5 relative (f32 powf), result widened by 2 ulp of the format's Float at scale max(|l|,|d|) and 1 LSB for integer formats; d is observed through a second instance of the same detector stage (rectifiers are checked here, RMS in C11)");
